@@ -33,8 +33,18 @@ func vfGenSrvCfg(t *rapid.T) vfSrvCfg {
 	return c
 }
 
+// vfMaybeReadOnly turns a drawn os-backed configuration into a ReadOnly() one now and then.
+func vfMaybeReadOnly(t *rapid.T, c *vfSrvCfg) {
+	if c.Kind == "os" && rapid.IntRange(0, 4).Draw(t, "readonly") == 0 {
+		c.ReadOnly = true
+	}
+}
+
 func vfGenC02(t *rapid.T) vfCaseC02 {
 	c := vfCaseC02{Srv: vfGenSrvCfg(t)}
+	if c.Srv.Kind == "os" && rapid.IntRange(0, 3).Draw(t, "readonly") == 0 {
+		c.Srv.ReadOnly = true // refusals are produced on another code path than served requests
+	}
 	c.IDBase = vfGenU32(t, "idbase")
 	// step 0 = every request carries the same id (legal on the wire; then only arrival order tells the responses apart)
 	c.IDStep = uint32(rapid.SampledFrom([]int{1, 3, 7919, 0x9e3779b1, 1, 0}).Draw(t, "idstep"))
@@ -195,6 +205,9 @@ func vfRunC02(ctx *vfCtx, c vfCaseC02) {
 	kind := c.Srv.Kind
 	if c.Srv.Alloc {
 		kind += "+alloc"
+	}
+	if c.Srv.ReadOnly {
+		kind += "+readonly"
 	}
 	ctx.Class("server=" + kind)
 	ps := vfStartProg(ctx, c.Srv, c.IDBase, c.IDStep)
